@@ -168,7 +168,11 @@ func (c *Conn) AsyncRead() {
 	// be re-dispatched before this reading event has been handled and set again.
 	if g.isOneshot {
 		g.IOExecute(func(pbuf *[]byte) {
+			size := len(*pbuf)
+			defer func() { *pbuf = (*pbuf)[:size] }()
 			for i := 0; i < g.MaxConnReadTimesPerEventLoop; i++ {
+				// the previous round cut the buffer to what it had read.
+				*pbuf = (*pbuf)[:size]
 				rc, n, err := c.ReadAndGetConn(pbuf)
 				if n > 0 {
 					*pbuf = (*pbuf)[:n]
@@ -189,9 +193,6 @@ func (c *Conn) AsyncRead() {
 					// the read task, after everything has been read.
 					_ = c.closeWithError(io.EOF)
 					return
-				}
-				if n < len(*pbuf) {
-					break
 				}
 			}
 			c.ResetPollerEvent()
@@ -219,9 +220,13 @@ func (c *Conn) AsyncRead() {
 	}
 
 	g.IOExecute(func(pBuf *[]byte) {
+		size := len(*pBuf)
+		defer func() { *pBuf = (*pBuf)[:size] }()
 		for {
 			// try to read all the data available.
 			for i := 0; i < g.MaxConnReadTimesPerEventLoop; i++ {
+				// the previous round cut the buffer to what it had read.
+				*pBuf = (*pBuf)[:size]
 				rc, n, err := c.ReadAndGetConn(pBuf)
 				if n > 0 {
 					*pBuf = (*pBuf)[:n]
@@ -241,9 +246,6 @@ func (c *Conn) AsyncRead() {
 					// end of the stream, see above.
 					_ = c.closeWithError(io.EOF)
 					return
-				}
-				if n < len(*pBuf) {
-					break
 				}
 			}
 			if atomic.AddInt32(&c.readEvents, -1) == 0 {
